@@ -708,3 +708,61 @@ SCENARIOS = {
     'metadata_merge': scenario_metadata_merge, 'brokerclient': scenario_brokerclient, 'assignment': scenario_assignment,
     'partitioner': scenario_partitioner, 'group': scenario_group,
 }
+
+
+# ---------------------------------------------------------------------------------------------- deterministic finding reproducers
+
+def scenario_magic_fallback(rnd, n):
+    """C04: with version discovery enabled but failing (old broker), the first produce request must be a v0 request
+    whose messages use message format 0"""
+    from unittest.mock import Mock
+    from afkak import Producer, KafkaClient
+    from afkak.common import KafkaUnavailableError, BrokerMetadata, TopicAndPartition
+
+    def one(r, script):
+        clock = task.Clock()
+        client = KafkaClient(hosts='h:1', reactor=clock, enable_protocol_version_discovery=True)
+        client.topic_partitions = {'t': [0]}
+        client.topic_errors = {'t': 0}
+        client._brokers = {1: BrokerMetadata(1, 'h', 1)}
+        client.topics_to_brokers[TopicAndPartition('t', 0)] = BrokerMetadata(1, 'h', 1)
+        sent = []
+        client._send_broker_unaware_request = lambda rid, req: defer.fail(Failure(KafkaUnavailableError('no ApiVersions')))
+        client._make_request_to_broker = lambda broker, rid, req, **kw: sent.append(req) or defer.Deferred()
+        client._get_brokerclient = lambda nid: Mock(node_id=nid)
+        Producer(client).send_messages('t', msgs=[b'x'])
+        script.append('discovery fails, then send_messages')
+        req = sent[0]
+        key, ver = struct.unpack('>hh', req[:4])
+        cid = struct.unpack('>h', req[8:10])[0]
+        pos = 10 + cid + 2 + 4 + 4 + 2 + 1 + 4 + 4 + 4 + 8 + 4 + 4
+        if (ver >= 2) != (req[pos] == 1):
+            raise Hit('C04:header-version-%d-but-message-magic-%d' % (ver, req[pos]), 'Produce request after failed discovery')
+    return _run(rnd, 1, one)
+
+
+def scenario_bootstrap_close(rnd, n):
+    """C20: an operation waiting on a bootstrap connection attempt fails at once when the client is closed"""
+    from afkak import KafkaClient
+
+    class Hang:
+        def __init__(self, reactor, host, port):
+            pass
+
+        def connect(self, f):
+            return defer.Deferred()
+
+    def one(r, script):
+        clock = task.Clock()
+        client = KafkaClient(hosts='h1,h2', reactor=clock, endpoint_factory=Hang, enable_protocol_version_discovery=False)
+        out = []
+        client.load_metadata_for_topics().addBoth(out.append)
+        client.close()
+        script.append('load_metadata_for_topics pending on a bootstrap connect, then close()')
+        if not out:
+            raise Hit('C20:operation-pending-on-bootstrap-connect-not-ended-at-close', 'load_metadata_for_topics still pending')
+    return _run(rnd, 1, one)
+
+
+SCENARIOS['magic_fallback'] = scenario_magic_fallback
+SCENARIOS['bootstrap_close'] = scenario_bootstrap_close
